@@ -289,7 +289,15 @@ def monitor_sub(case, obs, k, w):
             out.append(({"class": "layers-differ"}, "the layers of the cache hold different data after step %d" % si, {"step": si}))
         if pr["op"] == "fwd":
             batch = list(zip(pr["seqs"], pr["pos"], pr["toks"]))
-            if st.get("err") == "full":
+            if st.get("err") == "backend":
+                # the backend failed inside StartForward: the caller recovers with Remove(seq_k, pos_k, MaxInt32) (the next
+                # steps); the window has moved as for a refused batch.  What matters is that every LATER history is exact.
+                ideal.refused(batch)
+                if wrapped:
+                    for q in set(b[0] for b in batch):
+                        if any(x[0] >= min(p for qq, p, _ in batch if qq == q) for x in ideal.entries(q)):
+                            ideal.dirty.add(q)
+            elif st.get("err") == "full":
                 # a full cache is an error and leaves every live entry as it was (only sliding-window eviction may drop)
                 before = live_entries(prev) if prev else {}
                 after = live_entries(cache)
@@ -449,6 +457,18 @@ class Sim:
     def gc(self):
         self.ent = [e for e in self.ent if e[1]]
 
+    def evict(self, batch):
+        w = self.cfg["window"]
+        if w:
+            low = {}
+            for q, p, _ in batch:
+                low[q] = min(low.get(q, p), p)
+            for e in self.ent:
+                for q in list(e[1]):
+                    if q in low and e[0] < low[q] - w:
+                        e[1].discard(q)
+            self.gc()
+
     def fwd(self, batch):
         w = self.cfg["window"]
         if w:
@@ -512,9 +532,23 @@ def gen_history(rng, cfg, klass, nops):
         sim.fwd(batch)
         ops.append(o)
 
+    def fwdf(n, only=None):
+        """a forward pass during which the mask upload fails (then the batch is taken back by the recovery)"""
+        o, batch = gen_fwd(rng, sim, only or seqs, n)
+        o["op"] = "fwdf"
+        o["fault"] = {"mask": rng.choice([1, 1, 2]) if cfg["kind"] == "wrapper" else 1}
+        sim.evict(batch)
+        ops.append(o)
+
     def rm(q, b, e, raw=False):
-        ops.append({"op": "rm" if raw else "rmc", "seq": q, "b": b, "e": e})
-        sim.rm(q, b, e)
+        o = {"op": "rm" if raw else "rmc", "seq": q, "b": b, "e": e}
+        if e != MAXI32 and cfg["shift"] and rng.random() < 0.1:
+            o["fault"] = {"shift": rng.choice(["alloc", "fn"])}
+        ops.append(o)
+        if not o.get("fault"):
+            sim.rm(q, b, e)
+        elif not raw:
+            sim.rm(q, 0, MAXI32)
 
     if klass in ("defrag", "full"):
         # fill the cache sequence after sequence, punch holes at the front / in the middle, keep the tail live
@@ -542,6 +576,8 @@ def gen_history(rng, cfg, klass, nops):
         if klass == "full":
             fwd(free + rng.randint(1, 2))
         elif free >= 1:
+            if rng.random() < 0.35:
+                fwdf(rng.randint(max(1, free - 1), free))      # the backend fails in the pass that had to defragment
             fwd(rng.randint(max(1, free - 1), free))
     if klass == "swa-shift":
         # what ShiftCacheSlot does on a sliding-window cache: keep a prefix, discard a middle range, continue at the end
@@ -582,7 +618,7 @@ def gen_history(rng, cfg, klass, nops):
         free = sim.n - sim.used()
         if cfg["kind"] in ("causal", "swa") and rng.random() < 0.06:
             # a reservation pass (worst-case graph): must leave the cache as it is
-            n = rng.randint(1, B)
+            n = rng.randint(1, max(1, min(B, sim.n)))     # a reservation batch never exceeds the cache
             ops.append({"op": "reserve", "seqs": [rng.choice(seqs)] * n, "pos": list(range(n)), "toks": [9000 + i for i in range(n)]})
             continue
         if free < B and have and rng.random() < 0.6:
@@ -593,6 +629,8 @@ def gen_history(rng, cfg, klass, nops):
             n = rng.randint(1, B)
             if rng.random() < 0.08:
                 n = free + 1
+            if style == "append" and rng.random() < 0.06:
+                fwdf(max(1, n))
             fwd(max(1, n), style)
         elif r < 0.65:
             q = rng.choice(have)
@@ -763,6 +801,10 @@ def zn(x):
 def r_op(pr):
     if pr["op"] == "reserve":
         return "ZV [" + ";".join("(%d,%s,%d)" % (q, zn(p), t) for q, p, t in zip(pr["seqs"], pr["pos"], pr["toks"])) + "]"
+    if pr["op"] == "fwd" and (pr.get("fault") or {}).get("mask"):
+        return "ZFf [" + ";".join("(%d,%s,%d)" % (q, zn(p), t) for q, p, t in zip(pr["seqs"], pr["pos"], pr["toks"])) + "] %d" % (pr["fault"]["mask"] - 1)
+    if pr["op"] == "rm" and (pr.get("fault") or {}).get("shift"):
+        return "ZRf %d %s %s" % (pr["seq"], zn(pr["b"]), zn(pr["e"]))
     if pr["op"] == "fwd":
         return "ZF [" + ";".join("(%d,%s,%d)" % (q, zn(p), t) for q, p, t in zip(pr["seqs"], pr["pos"], pr["toks"])) + "]"
     if pr["op"] == "copy":
@@ -784,6 +826,8 @@ def r_out(st, k=0):
     if pr["op"] == "fwd":
         if st.get("err") == "full":
             return "BFull"
+        if st.get("err") == "backend":
+            return "BBackend"
         if st.get("err"):
             return "BPanic"
         f = st["fw"][k]
@@ -793,6 +837,8 @@ def r_out(st, k=0):
             return "BOk"
         if st["err"] == "notsupported":
             return "BNotSupported"
+        if st["err"] == "backend":
+            return "BBackend"
         if "shared" in st["err"]:
             return "BShared"
         return "BPanic"
@@ -927,6 +973,10 @@ def features(case, obs):
                 fs.add("defrag-merged>=3")
             if len(st["moves"]) >= 2:
                 fs.add("defrag-several-moves")
+        if st.get("err") == "backend":
+            fs.add("fault-" + pr["op"])
+            if st.get("moves"):
+                fs.add("fault-fwd+defrag")
         if pr["op"] == "fwd":
             if st.get("err") == "full":
                 fs.add("full")
@@ -1069,6 +1119,8 @@ def search_around(ctx, binp, case):
                 sim.rm(o["seq"], o["b"], o["e"])
             elif o["op"] == "load":
                 sim.rm(o["seq"], o["pos"], MAXI32)
+            elif o["op"] == "fwdf":
+                sim.evict(list(zip(o["seqs"], o["pos"], o["toks"])))
         seqs = sorted({q for e in sim.ent for q in e[1]} | set(range(cfg["maxseq"])))
         ext = []
         for _ in range(rng.randint(1, 6)):
@@ -1169,7 +1221,7 @@ MANIFEST = {
     "engine": "coq-model+go-differential",
     "level_claimed": {
         "category": "proof",
-        "text": "Coq theorems (24, closed under the global context) about an executable model of kvcache/causal.go in which the cell metadata and "
+        "text": "Coq theorems (26, closed under the global context) about an executable model of kvcache/causal.go in which the cell metadata and "
                 "the physical K/V rows per location are separate: for EVERY history of operations (forward batches mixing sequences, CopyPrefix, "
                 "Remove of prefixes/middles/suffixes with shift and the prescribed clean-up on failure, CanResume), every capacity, padding and window, the "
                 "cache state refines a multiset specification (C06_refines, by induction over the operation list; the defragmentation loop with its "
